@@ -48,6 +48,8 @@ pub const BIN_FORMS: [&str; 8] = [
     "a op= b",
 ];
 
+pub const ALIAS_FORMS: [&str; 2] = ["a.op(&a)", "&a op &a"];
+
 pub fn class_of(d: DecompositionType) -> Class {
     match d {
         DecompositionType::None => Class::None,
@@ -127,6 +129,8 @@ pub trait Tbl:
     /// where "afterwards" is the operand when it was only borrowed, or a clone of the original
     /// when it was consumed (then there is nothing to observe).
     fn t_bin_form(op: BinOp, form: usize, a: &Self, b: &Self) -> (Self, Self, Self);
+    /// The forms that can take the SAME object on both sides (index into ALIAS_FORMS): a.op(&a), &a op &a.
+    fn t_bin_alias(op: BinOp, form: usize, a: &Self) -> Self;
 
     fn to_dyn(&self) -> Lut;
     fn try_from_dyn(l: Lut) -> Result<Self, ()>;
@@ -228,6 +232,17 @@ macro_rules! common_methods {
                     (r, a.clone())
                 }
                 _ => panic!("harness: bad NOT form"),
+            }
+        }
+        fn t_bin_alias(op: BinOp, form: usize, a: &Self) -> Self {
+            match (op, form) {
+                (BinOp::And, 0) => a.and(a),
+                (BinOp::Or, 0) => a.or(a),
+                (BinOp::Xor, 0) => a.xor(a),
+                (BinOp::And, 1) => a & a,
+                (BinOp::Or, 1) => a | a,
+                (BinOp::Xor, 1) => a ^ a,
+                _ => panic!("harness: bad alias form"),
             }
         }
         fn t_bin_form(op: BinOp, form: usize, a: &Self, b: &Self) -> (Self, Self, Self) {
